@@ -121,7 +121,14 @@ def main(argv=None):
     ctx = Ctx()
     ctx.seed, ctx.tier, ctx.xd, ctx.prop, ctx.build = a.seed, a.tier, xd, a.prop, a.build
     ctx.hashseed = os.environ.get("PYTHONHASHSEED", "")
-    known = set(x for x in a.known.split(",") if x)
+    known_pats = [x for x in a.known.split(",") if x]
+
+    class _Known:
+        """known-finding classes; entries may be fnmatch patterns (C11.*.eqne)"""
+        def __contains__(self, cls):
+            import fnmatch
+            return any(fnmatch.fnmatchcase(cls, p) for p in known_pats)
+    known = _Known()
     signal.signal(signal.SIGVTALRM, _stall_handler)
     from .containers import SimStall, _Ctx
 
